@@ -294,7 +294,32 @@ def c03(ctx):
         cases.append({"src": src, "media": rng.choice(MEDIA), "rules": "all", "bounds": True, "display": True})
     for s in scs[:1500]:
         cases.append(dict(pipe.impl_case(s), bounds=True, display=True))
+    # long single-line diagnostics over multi-byte text, every length / byte alignment (rendering must not cut inside a character)
+    for L in range(20, 340, 3):
+        for ch in ("é", "漢", "😀"):
+            pad = "a" * (L % 7)
+            cases.append({"src": '"%s%s" == b;' % (pad, ch * L), "media": "ts", "rules": ["eqeqeq"], "bounds": True, "display": True})
+            cases.append({"src": "// TODO %s%s" % (pad, ch * L), "media": "ts", "rules": ["ban-untagged-todo"], "bounds": True, "display": True})
+            cases.append({"src": "x = `%s%s`;\nconsole.log(`%s`, x); debugger;" % (pad, ch * L, ch * (L // 2)), "media": "ts", "rules": "all", "bounds": True, "display": True})
+    # JSX text that looks like a comment, behind every kind of leading white space / character reference
+    for lead in ["", " ", "  ", "\n  ", "\t", "&#32;", "&nbsp;", "\u3000", "&#32;\u3000\u3000", " &#x20; ", "\u00a0\u00a0", "é ", "&amp;"]:
+        for body in ["// x", "/* x */", "// é漢", "/* 😀 */ tail", "//"]:
+            for wrap in ("<div>%s</div>;", "<>%s</>;", "<A b={1}>\n%s\n</A>;", "<p>a{b}%s</p>;"):
+                cases.append({"src": wrap % (lead + body), "media": "tsx", "rules": "all", "bounds": True, "display": True})
     res = lib.run_vh("lint", cases, per_case_timeout=5)
+    # leading byte order marks: the file is linted like the file without them (release and debug builds)
+    bom_base = [c for c in cases[:400] if not c["src"].startswith("#!")]
+    for profile in ("release", "debug"):
+        b0 = lib.run_vh("lint", [dict(c, bounds=False, display=False) for c in bom_base], profile=profile, per_case_timeout=10)
+        for nb in (1, 2, 3):
+            b1 = lib.run_vh("lint", [dict(c, src="\ufeff" * nb + c["src"], bounds=False, display=False) for c in bom_base], profile=profile, per_case_timeout=10)
+            nbad = 0
+            for c, x0, x1 in zip(bom_base, b0, b1):
+                if status(x0) == "ok" and status(x1) != "ok":
+                    nbad += 1
+                    if nbad <= 1:
+                        ctx.violation("C03.bom-input-not-linted:%s" % profile, "%d leading BOM(s): %s instead of diagnostics (%s build)" % (nb, status(x1), profile),
+                                      {"case": dict(c, src="\ufeff" * nb + c["src"]), "result": x1})
     seen = collections.Counter()
     nontriv = set()
     ndiags = 0
